@@ -32,6 +32,23 @@ impl B {
     fn forbid(&mut self, w: &str) -> String { if !self.forbidden.iter().any(|x| x == w) { self.forbidden.push(w.to_string()); } w.to_string() }
 }
 
+/// a code line with a trailing comment on the same line (multi-byte characters before it)
+fn code_line_with_trailing_comment(lang: &str, fill: &str, b: &mut B, rng: &mut Rng) {
+    let before = b.text.len();
+    code_line(lang, fill, b);
+    // take the final line feed back, append the comment, restore it
+    if b.text.ends_with('\n') && b.text.len() > before {
+        b.text.pop();
+        b.nchars -= 1;
+        if let Some(last) = b.segs.last_mut() { last["e"] = json!(b.nchars); }
+        let lead = crate::inputs::line_leader(lang);
+        b.nonprose("leader", &format!(" {lead}"));
+        let k = rng.range(2, 4);
+        b.prose_words(rng, k);
+        b.nonprose("ws", "\n");
+    }
+}
+
 fn code_line(lang: &str, fill: &str, b: &mut B) {
     let strz = b.forbid("strzzq");
     let codez = b.forbid("codezzq");
@@ -68,7 +85,11 @@ fn comment_file(lang: &str, rng: &mut Rng) -> B {
     for _ in 0..nseg {
         let fill = FILL[rng.below(FILL.len())];
         match rng.below(6) {
-            0 | 1 => { code_line(lang, fill, &mut b); last_was_comment = false; }
+            0 => { code_line(lang, fill, &mut b); last_was_comment = false; }
+            1 => {
+                if matches!(lang, "toml" | "cmake" | "java" | "csharp") { code_line(lang, fill, &mut b); last_was_comment = false; }
+                else { code_line_with_trailing_comment(lang, fill, &mut b, rng); last_was_comment = true; }
+            }
             2 | 3 => {
                 // one or two comment lines (sometimes a doc-comment leader)
                 let lead = if block && lead == "// " && rng.chance(1, 3) { if matches!(lang, "rust") && rng.chance(1, 2) { "//! " } else { "/// " } } else { lead };
